@@ -1,13 +1,19 @@
 SPEC = {
     "trusted": [
-        "C15: the abstraction of a class file to (name, super class, interfaces, methods with the five access flags the code tests, name, descriptor, ordered invoke targets) is done by the harness: for generated jars it is the description the harness' own assembler (harness/src/bin/c15/asm.rs, JVMS 4) built the bytes from; for the vendored javac-17 classes and /repo's fixtures it is the vendored .spec file derived once from `javap -v` output (corpus/C15/mkspec.py)",
-        "C15: duke's class reader (class file -> visitor events) is outside the model; the correspondence run goes through it on every case",
-        "C15: the harness' independent reference of the documented rule (harness/src/bin/c15/oracle.rs) is the oracle used to search for failing inputs on the implementation",
-        "C15: src/specialized_methods/mod.rs is compiled into the harness binary by include!; the marker types Official/Intermediary/Named are re-declared there as in /repo/src/main.rs",
+        "C15: the abstraction of a class file to what the model sees (name, super class, interfaces; per method the five access flags the code tests, name, descriptor, whether it has Code and the ordered targets of its invokevirtual/special/static/interface instructions) is done by the harness: for generated jars it is the description the harness' own assembler (harness/src/bin/c15/asm.rs, JVMS 4) built the bytes from; for the vendored javac-17 classes of corpus/C15 and /repo's fixtures it is the vendored .spec file (javap -c plus a 60-line header reader, corpus/C15/mkspec.py), re-confirmed on every run by the independent parser fbh::classfile::raw; for the shared corpus /verif/corpus/classes it is that independent parser's reading",
+        "C15: duke's class reader (class file -> visitor events) is outside the model; the correspondence run goes through it on every case (a corpus jar that duke refuses to read is counted and skipped: that is C01/C16's subject)",
+        "C15: the harness' independent reference of the documented rule (harness/src/bin/c15/oracle.rs: own descriptor splitter, ancestor closure with a visited set, own inheritance lookup over the mapping mirrors) is the oracle used to search for failing inputs on the implementation",
+        "C15: src/specialized_methods/mod.rs is compiled into the harness binary by include!(FBH_REPO); the marker types Official/Intermediary/Named are re-declared there as in /repo/src/main.rs; the private map specialized_to_bridge is observed through SpecializedMethods::remap with a recording identity remapper",
+        "C15: descriptor parsing is the C18 model (FB.C18.Model.parse_method, tied to duke's parser by C18's own check)",
+        "C15: the string pool z0.. in coq/C15/Run.v is a table of abbreviations read by the harness from that file (case terms are printed as concatenations of pool entries to keep coqc's elaboration time low)",
     ],
     "assumptions": [
-        "the theorems speak about runs of the model that do not exhaust the fuel of the hierarchy work-lists (get_ancestors / get_descendants have no visited set: on a cyclic class hierarchy the Rust loops do not terminate; fuel is quadratic in the number of hierarchy edges, which covers every generated and corpus jar)",
-        "mapping sets are well-formed (Quill.Mappings.wf: distinct keys per level) — what quill's IndexMaps guarantee",
+        "the theorems speak about runs of the model that do not exhaust the fuel of the hierarchy work-lists: get_ancestors / get_descendants have no visited set, on a cyclic class hierarchy the Rust loops do not terminate (not exercised: such a jar is not loadable by a JVM); fuel is quadratic in the number of hierarchy edges and sufficed for every generated and corpus jar (a fuel shortage would show as a model/implementation disagreement)",
+        "mapping sets have distinct class keys (and distinct method keys per class for the membership corollaries): Quill.Mappings.wf, what quill's IndexMaps guarantee; C15_wf_class_keys / C15_wf_meth_keys derive the hypotheses from the decidable wf",
+        "frame_delegate is stated under `one_bridge_per_delegate` (the property's own restriction); without it the last bridge in iteration order wins, which C15_mappings_frame states through lastp",
+        "the inheritance lookup of the remapper (named_ref, cal_ref) enters the theorems as the modelled function of coq/C15/Model.v (its own specification is C06's subject); C15_mappings_frame holds for every lookup function",
     ],
-    "stated_not_proved": [],
+    "stated_not_proved": [
+        "fuel_suffices: forall J, the parent relation of J is acyclic -> the number of hierarchy paths from any class is below jar_fuel J -> get_specialized J <> Err  (only C15_walk_fuel_mono — more fuel never changes an answer — is proved)",
+    ],
 }
